@@ -256,6 +256,9 @@ func (it *Interp) polyIsZero(d *Poly) *smt.Term {
 			return r
 		}
 	}
+	if r := it.polyIsZeroFactored(d); r != nil {
+		return r
+	}
 	// canonical orientation: compare the canonical difference with zero
 	return c.Eq(it.polyTerm(d), c.IntI(0))
 }
